@@ -34,8 +34,8 @@ HARNESSES = {
     ],
     "C14": [
         H("ieee_classification", "data", "K.ieee_classification", complete=True),
-        H("c14_import_case_multi_single", "lib", "C14.K.import_slow.accepts_iff", bounded="one multi-action infoset (2 actions) [+ one single-action infoset]; 2 entries x 1 pair with the concrete name pattern `multi_single`; weights ANY f64 (legal ones <= 1e300)", group="safe_rust", tier="thorough", timeout=2400),
-        H("c14_import_case_single_multi", "lib", "C14.K.import_slow.accepts_iff", bounded="one multi-action infoset (2 actions) [+ one single-action infoset]; 2 entries x 1 pair with the concrete name pattern `single_multi`; weights ANY f64 (legal ones <= 1e300)", group="safe_rust", tier="thorough", timeout=2400),
+        H("c14_import_case_multi_single", "lib", "C14.K.import_slow.accepts_iff", bounded="one multi-action infoset (2 actions) [+ one single-action infoset]; 2 entries x 1 pair with the concrete name pattern `multi_single`; weights ANY f64 (legal ones <= 1e300)", group="safe_rust_big", tier="thorough", timeout=2400),
+        H("c14_import_case_single_multi", "lib", "C14.K.import_slow.accepts_iff", bounded="one multi-action infoset (2 actions) [+ one single-action infoset]; 2 entries x 1 pair with the concrete name pattern `single_multi`; weights ANY f64 (legal ones <= 1e300)", group="safe_rust_big", tier="thorough", timeout=2400),
         H("c14_import_case_repeat", "lib", "C14.K.import_slow.accepts_iff", bounded="one multi-action infoset (2 actions) [+ one single-action infoset]; 2 entries x 1 pair with the concrete name pattern `repeat`; weights ANY f64 (legal ones <= 1e300)", group="safe_rust", timeout=1200),
         H("c14_import_case_two_actions", "lib", "C14.K.import_slow.accepts_iff", bounded="one multi-action infoset (2 actions) [+ one single-action infoset]; 2 entries x 1 pair with the concrete name pattern `two_actions`; weights ANY f64 (legal ones <= 1e300)", group="safe_rust", tier="thorough", timeout=2400),
         H("c14_import_case_missing_single", "lib", "C14.K.import_slow.accepts_iff", bounded="one multi-action infoset (2 actions) [+ one single-action infoset]; 2 entries x 1 pair with the concrete name pattern `missing_single`; weights ANY f64 (legal ones <= 1e300)", group="safe_rust", tier="thorough", timeout=2400),
@@ -54,6 +54,7 @@ HARNESSES = {
         H("c19_distance_panics_other_game", "lib", "C19.K.distance.panics", bounded="as above"),
         H("c19_distance_panics_other_game_empty", "lib", "C19.K.distance.panics", bounded="two games in which player one has no multi-action infoset"),
         H("c19_distance_panics_nonpositive_p", "lib", "C19.K.distance.panics", bounded="as above; p any f64 with !(p > 0)"),
+        H("c19_distance_panics_nonpositive_p_empty", "lib", "C19.K.distance.panics", bounded="a game in which neither player has a multi-action infoset; p any f64 with !(p > 0)"),
     ],
     "C02": [
         H("c02_regret_bound_accessors", "lib", "C02.K.RegretBound.max", complete=True),
